@@ -11,7 +11,7 @@ import random
 from .. import core, tlc
 
 UOD = ["Short", "Long", "Forever", "OvA", "OvB"]
-CTL = ["Start", "Stop", "Restart"]
+CTL = ["Start", "Stop", "Restart", "Pause", "Unpause", "Hold", "Unhold"]
 METHOD = ["Base: s", "Mark: A", ""]
 
 
@@ -43,6 +43,7 @@ def _run(schedule, tid):
             ev.append({"reqs": list(reqs), "acc": acc, "hooks": hooks, "inst": sorted(r.uod.command_instances.keys()),
                        "execL": [str(c.name) for c in eng._command_manager.cmd_executing],
                        "started": bool(eng._runstate_started), "stopping": bool(eng._runstate_stopping),
+                       "paused": bool(eng._runstate_paused), "holding": bool(eng._runstate_holding),
                        "state": snap["state"], "err": bool(eng.has_error_state())})
     finally:
         r.close()
@@ -73,10 +74,12 @@ def run_lockstep(ctx: core.Ctx):
                                     "the design check has become vacuous")
     rnd = random.Random(ctx.seed)
     traces = []
-    choices = [[]] + [[x] for x in UOD + CTL]
-    depth = 3 if ctx.quick else 4
-    for n, prefix in enumerate(itertools.product(choices, repeat=depth)):
-        # every run begins with a Start in some tick of the prefix or not at all; the tail is random
+    choices = [[]] + [[x] for x in ["Short", "Long", "OvA", "OvB"] + CTL]     # (Forever appears in the random and pair runs)
+    prefixes = list(itertools.product(choices, repeat=3))
+    if not ctx.quick:       # thorough: also every sequence of four ticks with at most one control command each, after a Long
+        prefixes += [(["Long"],) + tuple(x) for x in itertools.product([[]] + [[x] for x in CTL], repeat=4)]
+    for n, prefix in enumerate(prefixes):
+        # every other run begins with a Start; the tail is random
         tail = _random_schedule(rnd, 10 if ctx.quick else 14)
         traces.append(_run([["Start"]] * (n % 2) + [list(x) for x in prefix] + tail, f"e{n}"))
     for n in range(400 if ctx.quick else 3000):
